@@ -365,5 +365,73 @@ def comment_shapes():
     yield Shape(("comment", "hardcoded"), dict(tag="comment"), on_hardcoded)
 
 
+def pair_shapes():
+    """Ordered pairs over a small alphabet of instruction groups: what one instruction leaves in the generation
+    context (optional reached, dummy reached, names and length fields in scope, what was emitted) meets the next."""
+    def atoms(nm):
+        k = nm.name("k")
+        shared = nm.name("dup")
+        n = nm.name("n")
+        return {
+            "req": lambda: [Elem("field", {"name": nm.name("r"), "type": "char"})],
+            "opt": lambda: [Elem("field", {"name": nm.name("o"), "type": "char", "optional": "true"})],
+            "optstr": lambda: [Elem("field", {"name": nm.name("os"), "type": "string", "optional": "true"})],
+            "optarr": lambda: [Elem("array", {"name": nm.name("oa"), "type": "char", "optional": "true"})],
+            "lenarr": lambda: (lambda m: [Elem("length", {"name": m, "type": "char"}), Elem("array", {"name": nm.name("a"), "type": "SF", "length": m})])(nm.name("m")),
+            "len": lambda: [Elem("length", {"name": n, "type": "char"})],
+            "useslen": lambda: [Elem("field", {"name": nm.name("u"), "type": "string", "length": n})],
+            "named": lambda: [Elem("field", {"name": shared, "type": "char"})],
+            "dummy": lambda: [Elem("dummy", {"type": "short"}, text=nm.digits("dv"))],
+            "hard": lambda: [Elem("field", {"type": "char"}, text=nm.digits("hv"))],
+            "break": lambda: [Elem("break")],
+            "chunk": lambda: [Elem("chunked", {}, [Elem("field", {"name": nm.name("s"), "type": "string"}), Elem("break"), Elem("field", {"name": nm.name("c"), "type": "char"})])],
+            "chunkopt": lambda: [Elem("chunked", {}, [Elem("field", {"name": nm.name("s"), "type": "string", "optional": "true"})])],
+            "chunkdummy": lambda: [Elem("chunked", {}, [Elem("dummy", {"type": "char"}, text=nm.digits("dv"))])],
+            "switchopt": lambda: (lambda kk: [Elem("field", {"name": kk, "type": "char"}), Elem("switch", {"field": kk}, [
+                Elem("case", {"value": nm.digits("cv")}, [Elem("field", {"name": nm.name("q"), "type": "char", "optional": "true"})]),
+                Elem("case", {"default": "true"}, [])])])(nm.name("k")),
+            "switchoptfirst": lambda: (lambda kk: [Elem("field", {"name": kk, "type": "char"}), Elem("switch", {"field": kk}, [
+                Elem("case", {"value": nm.digits("cv")}, [Elem("field", {"name": nm.name("q"), "type": "char", "optional": "true"})]),
+                Elem("case", {"value": nm.digits("cw")}, [Elem("field", {"name": nm.name("w"), "type": "char"})])])])(nm.name("k")),
+            "switchdummy": lambda: (lambda kk: [Elem("field", {"name": kk, "type": "E"}), Elem("switch", {"field": kk}, [
+                Elem("case", {"value": "A"}, [Elem("dummy", {"type": "char"}, text=nm.digits("dv"))]),
+                Elem("case", {"value": "B"}, [Elem("field", {"name": nm.name("z"), "type": "int"})])])])(nm.name("k")),
+            "switchreq": lambda: (lambda kk: [Elem("field", {"name": kk, "type": "char"}), Elem("switch", {"field": kk}, [
+                Elem("case", {"value": nm.digits("cv")}, [Elem("field", {"name": nm.name("q"), "type": "char"})])])])(nm.name("k")),
+            "switchoptreq": lambda: (lambda kk: [Elem("field", {"name": kk, "type": "char", "optional": "true"}), Elem("switch", {"field": kk}, [
+                Elem("case", {"value": nm.digits("cv")}, [Elem("field", {"name": nm.name("q"), "type": "char", "optional": "true"})])])])(nm.name("k")),
+        }
+    names = ["req", "opt", "optstr", "optarr", "lenarr", "len", "useslen", "named", "dummy", "hard", "break", "chunk", "chunkopt",
+             "chunkdummy", "switchopt", "switchoptfirst", "switchdummy", "switchreq", "switchoptreq"]
+    for a, b in itertools.product(names, repeat=2):
+        def build(nm, a=a, b=b):
+            at = atoms(nm)
+            return at[a](), at[b](), []
+        yield Shape(("pair", a, b), dict(tag="pair", first=a, second=b), build)
+    for a, b, c in (("len", "useslen", "useslen"), ("opt", "break", "req"), ("opt", "break", "opt"), ("dummy", "break", "req"), ("opt", "switchopt", "opt"),
+                    ("switchopt", "opt", "opt"), ("chunkopt", "opt", "req"), ("switchoptfirst", "opt", "optstr")):
+        def build3(nm, a=a, b=b, c=c):
+            at = atoms(nm)
+            return at[a](), at[b](), at[c]()
+        yield Shape(("triple", a, b, c), dict(tag="triple"), build3)
+
+
+def badtype_shapes():
+    """Undeclared and malformed type names on every kind of instruction."""
+    for t in BAD_TYPES:
+        for kind in ("field", "array", "length", "dummy", "unnamed"):
+            def build(nm, t=t, kind=kind):
+                if kind == "field":
+                    return [], [Elem("field", {"name": nm.name("f"), "type": t})], []
+                if kind == "array":
+                    return [], [Elem("array", {"name": nm.name("a"), "type": t, "length": nm.digits("L")})], []
+                if kind == "length":
+                    return [], [Elem("length", {"name": nm.name("n"), "type": t})], []
+                if kind == "dummy":
+                    return [], [Elem("dummy", {"type": t}, text=nm.digits("v"))], []
+                return [], [Elem("field", {"type": t}, text=nm.digits("v"))], []
+            yield Shape(("badtype", t, kind), dict(tag="badtype"), build)
+
+
 def empty_object_shape():
     return Shape(("empty-object",), dict(tag="empty"), lambda nm: ([], [], []))
